@@ -129,6 +129,24 @@ def c02Visit (cfg : LeafCfg) (scr : LeafScript) (seg : List Ev) : Bool :=
            | none => (okVal scr.fb).map (fun x => (postArgs cfg.postS pv x).2) == some ev)
         | _ => true)
 
+/-- **C02**, the clauses that hold in EVERY scenario — whatever is cancelled when, also asynchronously during a
+    retry wait: never more than `N` attempts; every attempt but the last one failed (none after a success); the
+    fallback at most once, only by a node that has one, only after all `N` attempts were made and failed, with
+    the prep value and the error of the last attempt. -/
+def c02Bounds (cfg : LeafCfg) (scr : LeafScript) (seg : List Ev) : Bool :=
+  let p := split seg
+  let N := cfg.effBudget
+  let m := p.execs.length
+  decide (m ≤ N)
+  && (List.range (m - 1)).all (fun k => (okVal (scr.exec k)).isNone)
+  && decide (p.fbs.length ≤ 1)
+  && (p.fbs.isEmpty
+      || (cfg.fb == .custom && decide (1 ≤ N) && m == N && (List.range N).all (fun k => (okVal (scr.exec k)).isNone)
+          && (match prepValue cfg scr, errOf (scr.exec (N - 1)) with
+              | some pv, some e =>
+                p.fbs.all fun ev => match ev with | .fb _ _ a er => a == pv && er == .user e | _ => false
+              | _, _ => false)))
+
 /-! ### scenario-level helpers -/
 
 def scriptCancels (env : Env) (e : Ev) : Bool :=
